@@ -631,11 +631,15 @@ pub fn check_tree_dot(dot_text: &str, reference: &RAst) -> Result<(), String> {
     }
     let mut subs = HashSet::new();
     distinct_subterms(reference, &mut subs);
-    if g.nodes.len() != subs.len() {
+    // identical sub-terms MAY be one shared node (the export is read back "as a term with shared
+    // identical sub-terms"); whether they are shared is not prescribed. Every declared node is part of
+    // the term (one root, checked above), so only the count can be off.
+    if g.nodes.len() < subs.len() || g.nodes.len() > reference.size() {
         return Err(format!(
-            "{} nodes declared but the tree has {} distinct sub-terms (identical sub-terms must be one node)",
+            "{} nodes declared but the tree has {} distinct sub-terms and {} sub-term occurrences",
             g.nodes.len(),
-            subs.len()
+            subs.len(),
+            reference.size()
         ));
     }
     Ok(())
@@ -650,7 +654,7 @@ pub fn check_formula(text: &str, via_cli: bool) -> Check {
         let limit = (1usize << std::cmp::min(idents.len(), 12)) + 2;
         let (r, pf) = match front::run_text(text.as_bytes(), None, Some(limit)) {
             Run::Ok(r, pf) => (r, pf),
-            Run::ParseErr(e) => return Err(v(format!("well-formed formula rejected: {}", e))),
+            Run::ParseErr(e) => return Err(front::rejection(text, "well-formed formula", &e, &cj)),
             Run::ParsePanic(p) => return Err(v(format!("parser panicked: {}", p))),
             Run::EvalPanic(p, _) => return Err(v(format!("evaluation panicked: {}", p))),
         };
@@ -747,7 +751,21 @@ pub fn run(ctx: &mut Ctx) -> Result<(), Violation> {
             } else if st.want_sample() {
                 st.sample(json!({"kind": "bdd", "f": f.to_json()}));
             }
-            check_fun(&f)
+            // every diagram once as nodes of the environment; a third of them also as plain values
+            // (separately allocated equal sub-diagrams, what `BDD::<usize>::from(named)` yields) and
+            // as nodes of another environment
+            check_fun(&f)?;
+            match i % 3 {
+                0 => {
+                    st.class("operands:plain");
+                    crate::fun::with_operands(crate::fun::Operands::Plain, || check_fun(&f))
+                }
+                1 => {
+                    st.class("operands:other-env");
+                    crate::fun::with_operands(crate::fun::Operands::OtherEnv, || check_fun(&f))
+                }
+                _ => Ok(()),
+            }
         });
         ctx.stage(&format!("diagrams-all-functions-k{}", k), true, r)?;
     }
@@ -760,7 +778,9 @@ pub fn run(ctx: &mut Ctx) -> Result<(), Violation> {
         if f.tt.support().len() >= 2 && st.nontrivial(f.fingerprint()) {
             st.nt_sample(|| json!({"kind": "bdd", "f": f.to_json()}));
         }
-        check_fun(&f)
+        let mode = crate::fun::gen_operands(&mut t);
+        st.class(&format!("operands:{}", mode.name()));
+        crate::fun::with_operands(mode, || check_fun(&f))
     });
     ctx.stage("diagrams-random-up-to-8-vars", false, r)?;
 
@@ -828,6 +848,10 @@ pub fn run(ctx: &mut Ctx) -> Result<(), Violation> {
 
 pub fn replay(case: &Value) -> Check {
     match case["kind"].as_str() {
+        Some("bdd") if case["operands"].is_string() => match Fun::from_json(&case["f"]) {
+            Some(f) => crate::fun::with_operands(crate::fun::case_operands(case), || check_fun(&f)),
+            None => Err(Violation::new("unreadable replay case", case.clone())),
+        },
         Some("bdd") => match Fun::from_json(&case["f"]) {
             Some(f) => check_fun(&f),
             None => Err(Violation::new("unreadable replay case", case.clone())),
